@@ -26,10 +26,19 @@ def cb(item, *sketches, logdir=None, die_item=None):
         if die_item is not None and item["id"] == die_item:
             os._exit(1)
     if item["fault"] == "before":
-        raise CallbackError("item %d fails before touching the sketches" % item["id"])
+        raise failure(item["id"], "before touching the sketches")
     for sk in sketches:
         for key, mult in item["ops"]:
             sk.add(bytes(key), mult)
     if item["fault"] == "after":
-        raise CallbackError("item %d fails after updating the sketches" % item["id"])
+        raise failure(item["id"], "after updating the sketches")
     return item["ret"]
+
+
+def failure(i, when):
+    """User callbacks fail in many shapes: with a message, without arguments (bare assert,
+    KeyError(), StopIteration), with non-string arguments, OSError-style."""
+    shapes = [CallbackError("item %d fails %s" % (i, when)), KeyError(), AssertionError(), StopIteration(),
+              ValueError(i), OSError(2, "No such file"), ZeroDivisionError("division by zero"),
+              UnicodeDecodeError("utf-8", b"\xff", 0, 1, "invalid start byte"), IndexError()]
+    return shapes[i % len(shapes)]
